@@ -12,7 +12,22 @@ def main():
     if a.replay:
         sys.exit(mod.replay(json.load(open(a.replay))))
     chk = Check(a.pid, a.tier, seed)
-    sys.exit(mod.run(chk))
+    try:
+        rc = mod.run(chk)
+    except Exception:
+        # the harness itself failed (typically because the implementation now raises or returns
+        # something the drivers do not expect): the correspondence no longer checks
+        tb = traceback.format_exc()
+        print(tb[-2000:])
+        chk.disagree("harness exception (implementation behaviour outside what the drivers expect)", tb[-3000:])
+        if not chk.obligations:
+            try:
+                chk.proofs()
+            except Exception:
+                pass
+        rc = chk.finish(level="proof", rule="run aborted by an exception; see disagreements",
+                        explanation="aborted")
+    sys.exit(rc)
 
 if __name__ == "__main__":
     main()
